@@ -508,3 +508,33 @@ def module_scope(ctx: Ctx, f, stop: tuple = ()) -> list:
 
 def pool(funcs: list) -> list:
     return [(g, n) for g in funcs for n in own_nodes(g.node)]
+
+
+def is_que(fn_node: ast.AST, e: ast.AST) -> bool:
+    """`e` denotes the FSM's send queue (`self._que`), directly or through a local alias (`que = self._que`)."""
+    return "_que" in norm(e) or "_que" in norm(expand(fn_node, e, pure_only=False))
+
+
+def private_parts(ctx: Ctx, f) -> "list[tuple[Any, dict[str, str]]]":
+    """Synchronous methods of f's class that only f calls - a part of f that was given a name. For each: the map from the
+    callee's parameter names to the text of the argument f passes (one call site)."""
+    out = []
+    if f.cls is None:
+        return out
+    for cs in ctx.cg.calls_in(f):
+        c = cs.node
+        if not (isinstance(c, ast.Call) and isinstance(c.func, ast.Attribute) and norm(c.func.value) == "self"):
+            continue
+        for g in cs.callees:
+            if g is f or g.is_async or g.cls is None or g.cls not in f.cls.mro or any(g is x for x, _m in out):
+                continue
+            callers = {s0.caller.qualname for s0 in ctx.cg.callers_of(g)}
+            if callers != {f.qualname}:
+                continue
+            params = [a.arg for a in g.node.args.posonlyargs + g.node.args.args]
+            if params and params[0] in ("self", "cls"):
+                params = params[1:]
+            amap = {pn: norm(a) for pn, a in zip(params, c.args)}
+            amap.update({k.arg: norm(k.value) for k in c.keywords if k.arg})
+            out.append((g, amap))
+    return out
